@@ -194,7 +194,7 @@ func c06(c *Ctx) {
 	nu := c.fn("R06.1", "internal/backend.newUser")
 	if nu != nil {
 		found := false
-		for _, f := range engine.WithClosures(nu) {
+		for _, f := range engine.WithClosuresAndHandedOut(nu) {
 			for _, cs := range engine.Calls(f) {
 				callee := cs.Common().StaticCallee()
 				if callee != apply {
